@@ -53,7 +53,17 @@ GLOBAL_INIT = 'X=5:X%=6:X$="g":X#=8:Y=4:Y#=7:G=3:G$="h"'
 SNAP_LINE = '800 PRINT "[";X;X%;X$;"/";X#;Y;Y%;Y$;"/";Y#;G;G$;"/";P;Q;"]";:RETURN'
 
 PARAMS = ['X', 'X%', 'X$', 'Y#']
-PTYPE = {'X': '!', 'X%': '%', 'X$': '$', 'Y#': '#'}
+PTYPE = {'X': '!', 'X%': '%', 'X$': '$', 'Y#': '#', 'Y': '!', 'G': '!', 'Y%': '%', 'Y$': '$', 'G$': '$', 'X#': '#'}
+
+# same-typed parameter lists whose arguments are the caller's variables named like the *other*
+# parameters (the value an argument has must not depend on the binding of an earlier parameter)
+ALIAS_LISTS = [('X', 'Y'), ('X%', 'Y%'), ('X$', 'Y$'), ('X#', 'Y#'), ('X', 'Y', 'G'), ('X$', 'Y$', 'G$')]
+ALIAS_ARGS = {
+    '!': [('X', Fr(5)), ('Y', Fr(4)), ('G', Fr(3)), ('Y+0', Fr(4)), ('X%', Fr(6))],
+    '%': [('X%', Fr(6)), ('Y%', Fr(0)), ('1', Fr(1)), ('X', Fr(5))],
+    '$': [('X$', 'g'), ('Y$', ''), ('G$', 'h'), ('"s"', 's')],
+    '#': [('X#', Fr(8)), ('Y#', Fr(7)), ('Y#+0', Fr(7)), ('X', Fr(5))],
+}
 
 # argument alphabets: (text, converted value | ('err', code))
 ARGS = {
@@ -159,6 +169,12 @@ def reference(params, body, fnsig, args, trap):
             return ('soft',)        # not exactly representable: rounding is not this property's business
     elif body in ('sum', 'sum%'):
         v = env['X!'] + env['X%'] + env['Y#'] + len(env['X$'])
+    elif body == 'all':
+        vs = [env[p if p[-1] in '%$#' else p + '!'] for p in params]
+        if isinstance(vs[0], str):
+            v = '-'.join(vs)
+        else:
+            v = sum(x * 10 ** (len(vs) - 1 - i) for i, x in enumerate(vs))
     else:
         raise CheckError(body)
     if fnsig == '%':
@@ -388,6 +404,14 @@ def all_cases(tier):
             for args in arg_vectors(params, ARGS_SMALL if len(params) > 2 else ARGS):
                 for mode in MODES:
                     out.append((params, bname, fnsig, body, tuple(other), args, mode))
+    for params in ALIAS_LISTS:
+        if PTYPE[params[0]] == '$':
+            fnsig, body = '$', '+"-"+'.join(params)
+        else:
+            fnsig, body = '', '+'.join('%s*%d' % (p, 10 ** (len(params) - 1 - i)) for i, p in enumerate(params))
+        for args in arg_vectors(params, ALIAS_ARGS):
+            for mode in (MODES[::2] if quick else MODES):
+                out.append((params, 'all', fnsig, body, (), args, mode))
     if not quick:
         for params in param_lists(4, exact=4):
             for bname, fnsig, body, other in bodies(params):
@@ -424,7 +448,7 @@ def legs(ctx):
     n = len(cases)
     size = 150
     return [Leg('calls', [(ctx.tier, lo, min(n, lo + size)) for lo in range(0, n, size)], work, exhaustive=True,
-                bound='%d programs: all ordered lists of <= %d distinct parameters of {X, X%%, X$, Y#}%s (+ lists naming a parameter twice) x well-typed '
+                bound='%d programs: all ordered lists of <= %d distinct parameters of {X, X%%, X$, Y#}%s (+ lists naming a parameter twice, + 6 same-typed lists called with the variables of the caller that are named like the other parameters) x well-typed '
                       'bodies x full product of argument alphabets (! %d, %% %d, $ %d, # %d values) x 4 call modes' % (
                           n, 2 if ctx.quick else 3,
                           '' if ctx.quick else ' (+ all 24 lists of 4 with 2 values per parameter)',
@@ -437,7 +461,7 @@ def replay(ctx, leg, case):
     params = tuple(case['params'])
     alph = {}
     for t in ARGS:
-        alph[t] = dict((a[0], a) for a in ARGS[t] + ARGS_SMALL[t])
+        alph[t] = dict((a[0], a) for a in ARGS[t] + ARGS_SMALL[t] + ALIAS_ARGS[t])
     args = tuple(alph[PTYPE[p]][a] for p, a in zip(params, case['args']))
     judge_case(part, box, (params, case['body'], case['fnsig'], case['bodytext'], tuple(case['other']),
                            args, case['mode']))
